@@ -1,8 +1,453 @@
-//! C02 — monitor not built yet.
+//! C02 — the truth log is append-only; read-only / dry-run / no-op capabilities never write.
+//!
+//! Sequential histories through the real router + store. After EVERY call the harness re-reads
+//! `data/events.jsonl` and checks (1) the retained old bytes are an exact prefix, (2) the added
+//! suffix is a sequence of whole `\n`-terminated JSON frames, (3) calls classified
+//! *must-add-nothing* (all GETs incl. the three SSE GETs, the four status/cut-point POSTs,
+//! dry_run=true, auto/schedule answers `noop`/`dry_run`, rotate answering `rotated:false`, every
+//! 4xx-rejected request, unknown / malformed ids, malformed bodies, direct replays, cache
+//! rebuilds after cache deletion/corruption, restarts) added no byte, (4) ids acknowledged by a
+//! writing call are already in the file when the call returns (flush).
+//!
+//! Asynchronous writers (runs, tasks, compaction jobs) are waited for (their documented last
+//! frame / snapshot file) before the next "before" snapshot is taken, so a read-only call is
+//! never blamed for bytes of a still-running run.
+//!
+//! Thorough tier (or `--strace`): a second observer runs the real `rip serve` under strace and
+//! asserts events.jsonl is only opened O_APPEND-for-write or read-only, never truncated,
+//! renamed, unlinked or positionally written. Skips (note, not failure) when strace or the
+//! binary is missing.
+
+use crate::fixture::{runtime, App, Store};
+use crate::gen_hist::{exec, Known, OpKind};
+use crate::prng::Rng;
+use crate::provider::{ev_completed, ev_created, ev_text_delta, sse_done, sse_event, Provider, Reply};
 use crate::report::{Cfg, Report};
+use crate::truth;
+use axum::body::Body;
+use axum::http::Request;
+use http_body_util::BodyExt;
+use ripd::verif_export::{OpenResponsesConfig, ToolChoiceParam};
+use serde_json::{json, Value};
+use std::path::PathBuf;
+use std::sync::Arc;
+use std::time::{Duration, Instant};
+use tower::ServiceExt;
+
+#[path = "c02_strace.rs"]
+mod strace_obs;
 
 pub fn run(cfg: &Cfg) -> i32 {
-    let mut r = Report::new("C02", "exploration", "not built");
-    r.fatal_inconclusive("monitor not built yet");
+    let mut r = Report::new(
+        "C02",
+        "exploration",
+        "seeded sequential histories (60–250 calls) over the real router + store: writers (messages with tool / \
+         checkpoint / prompt inputs, sessions, tasks, branch, handoff, checkpoints, rotate, auto, schedule, direct store \
+         ops), read-only capabilities with fuzzed parameters and ids, malformed requests, cache deletion/corruption, \
+         restarts; the log is re-read after every call; a call is non-trivial when it was judged against a non-empty \
+         log; distinct = distinct (route, status, id class, parameter shape, expectation, fault context) tuples",
+    );
+    r.assume("asynchronous writers end with their documented last frame (run_ended / job_ended) or snapshot file");
+    r.assume("histories are sequential: concurrent interleavings are C01's subject");
+    let rt = runtime(6);
+    quiet_panics();
+
+    if let Some(path) = cfg.replay.clone() {
+        let (seed, case) = read_replay(&path);
+        let mut rng = Rng::derive(seed, case);
+        one_history(cfg, &mut r, &rt, &mut rng, case);
+        note_panics(&mut r);
+        drop(rt);
+        return r.finish(cfg);
+    }
+
+    // second observer: real binary under strace (thorough tier or on request), once, shard 0
+    if (cfg.tier == crate::report::Tier::Thorough || cfg.has_flag("--strace")) && cfg.shard.0 == 0 {
+        strace_obs::observe(cfg, &mut r);
+    }
+
+    let mut case = 0u64;
+    let max_cases = cfg.tier.pick(2_000u64, 1_000_000u64);
+    while case < max_cases && !r.over(cfg) {
+        let idx = case;
+        case += 1;
+        if !cfg.mine(idx) {
+            continue;
+        }
+        let mut rng = cfg.case_rng(idx);
+        one_history(cfg, &mut r, &rt, &mut rng, idx);
+    }
+    note_panics(&mut r);
+    if r.counters.get("must_add_nothing_calls").copied().unwrap_or(0) == 0 && r.violations.is_empty() {
+        r.fatal_inconclusive("no must-add-nothing call was judged");
+    }
+    drop(rt);
     r.finish(cfg)
 }
+
+fn note_panics(r: &mut Report) {
+    let g = PANICS.lock().map(|g| g.clone()).unwrap_or_default();
+    if !g.is_empty() {
+        let mut uniq: Vec<String> = Vec::new();
+        for m in &g {
+            // location + message without addresses
+            if !uniq.contains(m) && uniq.len() < 5 {
+                uniq.push(m.clone());
+            }
+        }
+        r.count("handler_panics_survived", g.len() as u64);
+        r.note("handler_panic_messages", json!(uniq));
+    }
+}
+
+fn read_replay(path: &PathBuf) -> (u64, u64) {
+    let v: Value = std::fs::read(path)
+        .ok()
+        .and_then(|b| serde_json::from_slice(&b).ok())
+        .unwrap_or(Value::Null);
+    let seed = v.get("seed").and_then(|x| x.as_u64()).unwrap_or(1);
+    let case = v.pointer("/witness/case").and_then(|x| x.as_u64()).unwrap_or(0);
+    (seed, case)
+}
+
+// ---------------------------------------------------------------------------------------------
+
+#[derive(Clone, Copy, Debug, PartialEq, Eq)]
+enum Act {
+    Ensure,
+    PostMessage,
+    StoreOp,
+    Branch,
+    Handoff,
+    Checkpoint,
+    Rotate,
+    Auto,
+    Schedule,
+    SessionCreate,
+    SessionInput,
+    SessionCancel,
+    TaskCreate,
+    TaskCancel,
+    TaskMisc,
+    ReadOnlyPost,
+    Get,
+    Sse,
+    Malformed,
+    DirectRead,
+    Restart,
+    CacheFault,
+}
+
+const ALL_ACTS: &[(Act, u64)] = &[
+    (Act::Ensure, 2),
+    (Act::PostMessage, 12),
+    (Act::StoreOp, 16),
+    (Act::Branch, 2),
+    (Act::Handoff, 2),
+    (Act::Checkpoint, 3),
+    (Act::Rotate, 4),
+    (Act::Auto, 5),
+    (Act::Schedule, 5),
+    (Act::SessionCreate, 2),
+    (Act::SessionInput, 2),
+    (Act::SessionCancel, 1),
+    (Act::TaskCreate, 2),
+    (Act::TaskCancel, 1),
+    (Act::TaskMisc, 1),
+    (Act::ReadOnlyPost, 22),
+    (Act::Get, 9),
+    (Act::Sse, 3),
+    (Act::Malformed, 6),
+    (Act::DirectRead, 3),
+    (Act::Restart, 2),
+    (Act::CacheFault, 3),
+];
+
+enum Pending {
+    RunEnded(String),
+    SessionEnded(String),
+    TaskSnapshot(String),
+    JobEnded(String),
+}
+
+#[derive(Debug, Clone, PartialEq, Eq)]
+enum Expect {
+    /// must add no byte; the string is the reason class
+    Nothing(&'static str),
+    MayWrite,
+}
+
+struct Outcome {
+    route: String,
+    status: u16,
+    id_class: &'static str,
+    shape: String,
+    expect: Expect,
+    acked: Vec<String>,
+    detail: Value,
+}
+
+struct Hist {
+    idx: u64,
+    store: Store,
+    app: Option<App>,
+    provider_cfg: Option<OpenResponsesConfig>,
+    provider_endpoint: Option<String>,
+    threads: Vec<String>,
+    msgs: Vec<(String, String)>,
+    sessions_fresh: Vec<String>,
+    sessions_used: Vec<String>,
+    tasks: Vec<String>,
+    stale: Vec<String>,
+    known: Known,
+    old: Vec<u8>,
+    pending: Vec<Pending>,
+    fault_armed: u32,
+    last_fault: &'static str,
+    ensured: bool,
+    step: usize,
+    hung: bool,
+    allow_reuse: bool,
+    orphan_job: bool,
+}
+
+const MALFORMED_IDS: &[&str] = &[
+    "",
+    " ",
+    ".",
+    "..",
+    "../events",
+    "../../data/events",
+    "../continuities/index",
+    "events",
+    "a/b",
+    "x\u{0}y",
+    "\u{202e}abc",
+    "🙂",
+    "null",
+    "0",
+    "-1",
+    "{id}",
+    "*",
+    "%",
+    "C:\\x",
+    "\n",
+    "00000000-0000-0000-0000-000000000000",
+    "not-a-uuid",
+];
+
+fn enc(s: &str) -> String {
+    let mut out = String::new();
+    for b in s.bytes() {
+        if b.is_ascii_alphanumeric() || b == b'-' || b == b'_' || b == b'.' || b == b'~' {
+            out.push(b as char);
+        } else {
+            out.push_str(&format!("%{b:02X}"));
+        }
+    }
+    out
+}
+
+fn has_prefix(new: &[u8], old: &[u8]) -> bool {
+    new.len() >= old.len() && new[..old.len()] == old[..]
+}
+
+fn contains(hay: &[u8], needle: &[u8]) -> bool {
+    !needle.is_empty() && hay.windows(needle.len()).any(|w| w == needle)
+}
+
+async fn send(
+    app: &App,
+    method: &str,
+    path: &str,
+    ctype: Option<&str>,
+    body: Vec<u8>,
+) -> Option<(u16, Vec<u8>)> {
+    let mut b = Request::builder().method(method).uri(path);
+    if let Some(c) = ctype {
+        b = b.header("content-type", c);
+    }
+    let req = b.body(Body::from(body)).ok()?;
+    let router = app.router.clone();
+    // run the handler on its own task, as the real server does: a panicking handler must not take the
+    // harness down (status 598 = handler panicked, 0 = watchdog)
+    let join = tokio::spawn(async move {
+        let resp = router.oneshot(req).await.ok()?;
+        let status = resp.status().as_u16();
+        let bytes = resp.into_body().collect().await.map(|c| c.to_bytes().to_vec()).unwrap_or_default();
+        Some((status, bytes))
+    });
+    match tokio::time::timeout(Duration::from_secs(20), join).await {
+        Ok(Ok(v)) => v,
+        Ok(Err(_)) => Some((598, Vec::new())),
+        Err(_) => Some((0, Vec::new())),
+    }
+}
+
+static PANICS: std::sync::Mutex<Vec<String>> = std::sync::Mutex::new(Vec::new());
+
+fn quiet_panics() {
+    std::panic::set_hook(Box::new(|info| {
+        let msg = info.to_string();
+        if let Ok(mut g) = PANICS.lock() {
+            if g.len() < 50 {
+                g.push(msg.chars().take(200).collect());
+            }
+        }
+    }));
+}
+
+fn jbody(v: &Value) -> Vec<u8> {
+    serde_json::to_vec(v).unwrap_or_default()
+}
+
+fn parse(b: &[u8]) -> Value {
+    serde_json::from_slice(b).unwrap_or(Value::Null)
+}
+
+impl Hist {
+    fn app(&self) -> App {
+        self.app.clone().expect("app open")
+    }
+
+    fn log(&self) -> Vec<u8> {
+        self.store.log_bytes()
+    }
+
+    /// (decoded id, class)
+    fn pick_thread_id(&self, rng: &mut Rng, real_bias: u64) -> (String, &'static str) {
+        let x = rng.below(100);
+        if x < real_bias && !self.threads.is_empty() {
+            return (rng.pick(&self.threads).clone(), "real");
+        }
+        match rng.below(6) {
+            0 | 1 => (
+                format!(
+                    "{}-{}-{}-{}-{}",
+                    rng.hex(8),
+                    rng.hex(4),
+                    rng.hex(4),
+                    rng.hex(4),
+                    rng.hex(12)
+                ),
+                "unknown_uuid",
+            ),
+            2 | 3 => (MALFORMED_IDS[rng.usize(MALFORMED_IDS.len())].to_string(), "malformed"),
+            4 => {
+                // variants of a real id that map to neighbouring cache files or differ in case
+                if let Some(t) = self.threads.first() {
+                    let v = match rng.below(5) {
+                        0 => t.to_uppercase(),
+                        1 => format!("{t}.mr.v1"),
+                        2 => format!("{t} "),
+                        3 => format!("./{t}"),
+                        _ => format!("{t}.comp.v1"),
+                    };
+                    (v, "real_variant")
+                } else {
+                    ("x".repeat(300), "malformed")
+                }
+            }
+            _ => {
+                // wrong kind: a session / task / stale id
+                let pool: Vec<&String> = self
+                    .sessions_used
+                    .iter()
+                    .chain(self.tasks.iter())
+                    .chain(self.stale.iter())
+                    .collect();
+                if pool.is_empty() {
+                    ("x".repeat(300), "malformed")
+                } else {
+                    (pool[rng.usize(pool.len())].clone(), "wrong_kind")
+                }
+            }
+        }
+    }
+
+    fn opt_u(rng: &mut Rng, pool: &[Value]) -> Option<Value> {
+        if rng.chance(1, 5) {
+            None
+        } else {
+            Some(pool[rng.usize(pool.len())].clone())
+        }
+    }
+
+    fn stride_pool() -> Vec<Value> {
+        vec![
+            json!(0),
+            json!(1),
+            json!(1),
+            json!(2),
+            json!(2),
+            json!(3),
+            json!(5),
+            json!(10_000),
+            json!(u64::MAX),
+            json!(null),
+            json!(-1),
+            json!("3"),
+            json!(1.5),
+        ]
+    }
+
+    fn limit_pool() -> Vec<Value> {
+        vec![
+            json!(0),
+            json!(1),
+            json!(33),
+            json!(u32::MAX),
+            json!(u32::MAX as u64 + 1),
+            json!(null),
+            json!(-1),
+            json!("7"),
+        ]
+    }
+
+    fn shape_of(v: &Value) -> String {
+        // parameter shape: keys with a coarse value class
+        match v {
+            Value::Object(m) => {
+                let mut parts: Vec<String> = m
+                    .iter()
+                    .map(|(k, v)| {
+                        let c = match v {
+                            Value::Null => "null".to_string(),
+                            Value::Bool(b) => b.to_string(),
+                            Value::Number(n) => {
+                                if let Some(u) = n.as_u64() {
+                                    match u {
+                                        0 => "0".into(),
+                                        1 => "1".into(),
+                                        2..=99 => "small".into(),
+                                        100..=4_294_967_295 => "mid".into(),
+                                        _ => "huge".into(),
+                                    }
+                                } else if n.is_i64() {
+                                    "neg".into()
+                                } else {
+                                    "float".into()
+                                }
+                            }
+                            Value::String(s) => {
+                                if s.is_empty() {
+                                    "str0".into()
+                                } else {
+                                    "str".into()
+                                }
+                            }
+                            Value::Array(_) => "arr".into(),
+                            Value::Object(_) => "obj".into(),
+                        };
+                        format!("{k}={c}")
+                    })
+                    .collect();
+                parts.sort();
+                parts.join(",")
+            }
+            other => format!("non_object:{}", other.to_string().chars().take(12).collect::<String>()),
+        }
+    }
+}
+
+include!("c02_steps.rs");
